@@ -83,7 +83,7 @@ TxUpdate(via, id, p, x, lt, fields, veto, osys) ==
 
 TxDelete(via, id, veto, osys) ==
   /\ "delete" \in Ops /\ InTx
-  /\ Call(DeleteOp(db, txn.sys \/ osys, id, veto), [op |-> "delete", a |-> [via |-> via, id |-> id, veto |-> veto, osys |-> osys]])
+  /\ Call(DeleteOp(db, txn.sys \/ osys, id, veto, IdOrder), [op |-> "delete", a |-> [via |-> via, id |-> id, veto |-> veto, osys |-> osys]])
   /\ UNCHANGED ntx
 
 WherePool(via) == (IF "all" \in WhereKinds THEN {<<"all", "">>} ELSE {})
